@@ -36,6 +36,19 @@ const (
 	allowedExtCSVGZ = ".csv.gz"
 )
 
+// isSafeLookupFileName reports whether name is a plain file name: no path
+// separators and no dot-dot, so that joining it to the lookups directory cannot
+// leave that directory.
+func isSafeLookupFileName(name string) bool {
+	if name == "" || name == "." || name == ".." {
+		return false
+	}
+	if strings.ContainsAny(name, "/\\") {
+		return false
+	}
+	return name == filepath.Base(name)
+}
+
 func UploadLookupFile(ctx *fasthttp.RequestCtx) {
 	fileName := string(ctx.FormValue("name"))
 	if fileName == "" {
@@ -69,6 +82,12 @@ func UploadLookupFile(ctx *fasthttp.RequestCtx) {
 		} else {
 			fileName += allowedExtCSV
 		}
+	}
+
+	if !isSafeLookupFileName(fileName) {
+		log.Errorf("UploadLookupFile: Invalid file name: %s", fileName)
+		ctx.Error("Invalid file name", fasthttp.StatusBadRequest)
+		return
 	}
 
 	fullLookupsDir := config.GetLookupPath()
@@ -167,6 +186,10 @@ func GetAllLookupFiles(ctx *fasthttp.RequestCtx) {
 
 func GetLookupFile(ctx *fasthttp.RequestCtx) {
 	lookupFilename := utils.ExtractParamAsString(ctx.UserValue("lookupFilename"))
+	if !isSafeLookupFileName(lookupFilename) {
+		ctx.Error("Invalid file name", fasthttp.StatusBadRequest)
+		return
+	}
 
 	lookupsDir := config.GetLookupPath()
 	filePath := filepath.Join(lookupsDir, lookupFilename)
@@ -195,6 +218,10 @@ func GetLookupFile(ctx *fasthttp.RequestCtx) {
 
 func DeleteLookupFile(ctx *fasthttp.RequestCtx) {
 	lookupFilename := utils.ExtractParamAsString(ctx.UserValue("lookupFilename"))
+	if !isSafeLookupFileName(lookupFilename) {
+		ctx.Error("Invalid file name", fasthttp.StatusBadRequest)
+		return
+	}
 
 	lookupsDir := config.GetLookupPath()
 	filePath := filepath.Join(lookupsDir, lookupFilename)
